@@ -162,6 +162,7 @@ class TermGen:
         self.let_counter = 0
         self.name_prefix = "n"
         self.used_names = set()
+        self.name_pool = []
 
     # ---- constants -------------------------------------------------------
     def const(self, sort):
@@ -191,7 +192,8 @@ class TermGen:
             txt = str(a.numerator)
         else:
             if a.denominator == 1:
-                txt = rng.choice([str(a.numerator), "%d.0" % a.numerator, "%d.00" % a.numerator])
+                # never a bare numeral: in logics that also have Int (ALL, QF_AUFLIRA) it would denote an Int
+                txt = rng.choice(["%d.0" % a.numerator, "%d.00" % a.numerator, "%d.000" % a.numerator])
             else:
                 d = a.denominator
                 dd = d
@@ -209,7 +211,7 @@ class TermGen:
                     digits = str(x.numerator).rjust(k + 1, "0")
                     txt = digits[:-k] + "." + digits[-k:] + rng.choice(["", "0"])
                 else:
-                    txt = "(/ %d %d)" % (a.numerator, a.denominator)
+                    txt = "(/ %d.0 %d.0)" % (a.numerator, a.denominator)
         if v < 0:
             txt = "(- %s)" % txt
         return mknum(v, sort, txt)
@@ -225,6 +227,9 @@ class TermGen:
         return [s for s in self.sig.consts if isinstance(s, tuple)]
 
     def fresh_name(self):
+        # popped names may be re-introduced (name_pool is filled by ScriptGen.history on pop)
+        if self.name_pool and self.rng.random() < self.o.get("reuse_names", 0.4):
+            return self.name_pool.pop(self.rng.randrange(len(self.name_pool)))
         self.name_counter += 1
         return "%s%d" % (self.name_prefix, self.name_counter)
 
@@ -709,7 +714,7 @@ class ScriptGen:
                     for _ in range(n):
                         popped += [strip_named(t) for t in level_asserts.pop()]
                         gone = level_defs.pop()
-                        level_names.pop()
+                        self.tg.name_pool += level_names.pop()
                         self.tg.defs = [f for f in self.tg.defs if f[0] not in gone]
                     depth -= n
             elif r < pr["assert_"] + pr["push"] + pr["pop"] + pr["define"]:
@@ -725,3 +730,20 @@ class ScriptGen:
             cmds.append({"k": "check-sat"})
             after_check()
         return cmds
+
+
+def dedup_asserts(cmds, rng, keep_p=0.08):
+    """Drop assertions whose (name-stripped) text repeats an earlier assertion, except with probability keep_p.
+    opensmt identifies assertions by their term, so repeated formulas hit known limitations of cores/interpolants;
+    most of the workload avoids them so that other defects stay visible."""
+    from .terms import strip_named
+    seen = set()
+    out = []
+    for c in cmds:
+        if c["k"] == "assert":
+            t = to_smt(strip_named(c["term"]), "ref")
+            if t in seen and rng.random() >= keep_p:
+                continue
+            seen.add(t)
+        out.append(c)
+    return out
